@@ -9,6 +9,11 @@ import (
 )
 
 func (core *JApiCore) collectMacro() *jerr.JApiError {
+	// The macros leave core.directives below: buildCatalog cannot see a MACRO in front of JSIGHT (or instead of it) anymore.
+	if len(core.directives) != 0 && core.directives[0].Type() == directive.Macro {
+		return core.directives[0].KeywordError(jerr.DirectiveJSIGHTShouldBeTheFirst)
+	}
+
 	for i := 0; i != len(core.directives); i++ {
 		if core.directives[i].Type() == directive.Macro {
 			if je := core.addMacro(core.directives[i]); je != nil {
